@@ -123,8 +123,6 @@ Auth::Basic::UserRequest::startHelperLookup(HttpRequest *request, AccessLogEntry
     }
     // otherwise submit this request to the auth helper(s) for validation
 
-    /* mark this user as having verification in progress */
-    user()->credentials(Auth::Pending);
     char buf[HELPER_INPUT_BUFFER];
     static char usern[HELPER_INPUT_BUFFER];
     static char pass[HELPER_INPUT_BUFFER];
@@ -144,9 +142,14 @@ Auth::Basic::UserRequest::startHelperLookup(HttpRequest *request, AccessLogEntry
     } else if (static_cast<size_t>(sz) >= sizeof(buf)) {
         debugs(9, DBG_CRITICAL, "ERROR: Basic Authentication Failure. user:password exceeds " << sizeof(buf) << " bytes.");
         handler(data);
-    } else
+    } else {
+        /* mark this user as having verification in progress (only now:
+         * without a submitted request nobody would ever reset the state
+         * or release the requests queued behind it) */
+        user()->credentials(Auth::Pending);
         helperSubmit(basicauthenticators, buf, Auth::Basic::UserRequest::HandleReply,
                      new Auth::StateData(this, handler, data));
+    }
 }
 
 void
